@@ -76,7 +76,8 @@ CLAIMED = {
         'chunkedMap f = map f for every point list and every core count >= 1. Ties: V (summed increments vs running fuvw), driver '
         'for the chunking model, exact series/Donnell oracle vs Panel.uvw/strain/stress incl. 1..16 threads and assembly slices. '
         'One defect repaired (Panel.stress ignored NLterms), one recorded (non-linear strain terms).',
-   note='As C02; OpenMP scheduling/races outside the model (bit-identical outputs across core counts required as supporting evidence); '
+   note='As C02; the def-level wrappers of the two field modules (pad / reshape / prange / ravel / trim, argument plumbing) are additionally read from the '
+        'source text and executed (tools/cyexec.py) against the binary on every run; OpenMP scheduling/races outside the model (bit-identical outputs across core counts required as supporting evidence); '
         'stress = F*strain checked numerically; conical panels rejected by fstrain.',
    technique='Lean 4 proof over regenerated model + hand model (chunking) + oracle', ref='4/C11'),
  'C12': dict(
@@ -86,7 +87,8 @@ CLAIMED = {
         'face-to-face with thickness offset) for all indices, flags, geometries, positions; conn_psd_*: the symmetric completion [[k11,k12],[k12^T,k22]] '
         'is positive semi-definite for kt, kr >= 0 over the reals (any finite family of dofs of the two panels). V: IR of every block vs the running kernels; '
         'implementation arm: mismatch-energy oracle vs PanelAssembly.get_k0_conn for both panel orders, symmetry, PSD; calc_kt_kr '
-        'symmetric/linear; model arm of the search: translated block kernels placed and mirrored like get_k0_conn vs the oracle (source as written). A genuine defect (coupling block dropped when p1 follows p2) was repaired.',
+        'symmetric/linear; calc_kt_kr itself has a hand model (Model/PenaltyConstants.lean) with theorems kt_kr_symmetric_* / kt_kr_corner_swap / '
+        'kt_kr_linear_in_moduli / kt_kr_positive and a driver correspondence against penalty_constants.py; model arm of the search: translated block kernels placed and mirrored like get_k0_conn vs the oracle (source as written). A genuine defect (coupling block dropped when p1 follows p2) was repaired.',
    note='As C02; interface length/footprint shared by both panels (as the kernels assume); get_k0_conn glue checked by oracle on '
         'explored assemblies; kCLTxycte has no kernel module in the tree.',
    technique='Lean 4 proof over regenerated model + translation validation + energy oracle', ref='4/C12'),
@@ -216,7 +218,8 @@ CLAIMED = {
         'load kind, every subset), line coverage of the modelled functions gated; implementation arm: virtual work of every load against '
         'the package\'s own uvw by quadrature, residual of the full system. Two defects repaired (kkk block, load-asymmetry term), three '
         'recorded (torque as one point force, Nxxtop harmonics dropped for *_bcn, null rows that carry load).',
-   note='Trusted: Lean kernel, Mathlib, hand model (tied on explored cases), fg rows / k0 / sin, cos, pi / solver are parameters taken from the '
+   note='Source reading: the shell field / strain / imperfection sources (9 commons files + mgi.pyx) are executed from their text (tools/cyexec.py) and compared with the compiled modules each run; on a disagreement fg . c = fuvw is evaluated on the source. ' + 
+        'Trusted: Lean kernel, Mathlib, hand model (tied on explored cases), fg rows / k0 / sin, cos, pi / solver are parameters taken from the '
         'running code; rounding not modelled (1e-9). Non-linear static belongs to C09/C17.',
    technique='Lean 4 proof over hand model + real-analysis theorem for the pressure load + driver correspondence + virtual-work oracle', ref='4/C18'),
  'C20': dict(
@@ -249,7 +252,8 @@ CLAIMED = {
         'kernels at alpha=0 vs cylinder kernels, isotropic vs general, linearity and split of kG0 through the public API. Four genuine kernel '
         'defects recorded (stale column in the clpt_donnell_bc2 cone loop, stale index in the isotropic k0_01 block, fsdt_donnell_bcn and '
         'fsdt_sanders_bcn cone vs cylinder kernels).',
-   note='PARTIAL: energy consistency and positive semi-definiteness are decided on the implementation only (not theorems); equality of cone and '
+   note='Source reading (tools/cyexec.py): the strain / stress field sources the energy oracle is built from and two complete linear kernels are executed from their text against the binary each run. ' + 
+        'PARTIAL: energy consistency and positive semi-definiteness are decided on the implementation only (not theorems); equality of cone and '
         'cylinder kernels is proved for the single section [0, L] (telescoping of s sections is proved as a list lemma, the per-entry primitive form '
         'is evaluated numerically on whole matrices); 67 isotropic positions are covered by exact rational evaluation only '
         '(tools/translate/conecyl_unproved.json). Trusted: Lean kernel, Mathlib, translator (validated by V each run), CCSpec.lean and its Python mirrors, '
